@@ -19,7 +19,7 @@ from __future__ import annotations
 import copy
 import enum
 
-from mc.env import World, BASE_TIME, SeqRLock
+from mc.env import World, BASE_TIME, SeqRLock, SeqLock
 from mc.worlds.stations import iso
 
 from flexstack.facilities.vru_awareness_service import vru_awareness_service as _VS
@@ -327,16 +327,13 @@ class LoopWorld(LatticeWorld):
 
 
 # ------------------------------------------------------------------------------------------------
-# generic structural projection (fallback canonical form; names no clustering internals)
+# bounded structural digest (used only to compare fast_copy with copy.deepcopy; never a canonical state)
 # ------------------------------------------------------------------------------------------------
-_SKIP_NAMES = {"logging", "vam_coder", "btp_router", "_lock", "last_vam_info_lock", "_time_fn", "_prev",
-               "device_data_provider", "vru_basic_service_ldm", "clustering_manager"}
-
-
 def struct(obj, now, horizon=1e6, _depth=0):
-    """Structural digest of a real object graph; floats within ``horizon`` seconds of ``now`` are time stamps and
-    are replaced by their age in ticks (absolute time never enters a canonical state)."""
-    import enum
+    """Digest of a small object graph: primitives, enums, containers, and the instance dictionaries of ``flexstack.*``
+    objects, at most 6 levels deep.  Locks, loggers, callables and foreign objects are skipped BY TYPE (no attribute
+    name is known here).  Floats close to ``now`` are time stamps and become ages in ticks."""
+    import logging as _logging
     if obj is None or isinstance(obj, (bool, int, str, bytes)):
         return obj
     if isinstance(obj, float):
@@ -345,19 +342,21 @@ def struct(obj, now, horizon=1e6, _depth=0):
         return round(obj, 9)
     if isinstance(obj, enum.Enum):
         return ("enum", obj.name)
+    if _depth >= 6:
+        return ("deep", type(obj).__name__)
     if isinstance(obj, (list, tuple)):
         return tuple(struct(x, now, horizon, _depth + 1) for x in obj)
     if isinstance(obj, (set, frozenset)):
         return tuple(sorted((struct(x, now, horizon, _depth + 1) for x in obj), key=repr))
     if isinstance(obj, dict):
         return tuple(sorted(((repr(k), struct(v, now, horizon, _depth + 1)) for k, v in obj.items())))
-    if callable(obj) and not hasattr(obj, "__dict__"):
-        return ("callable",)
+    t = type(obj)
+    if callable(obj) or isinstance(obj, (SeqRLock, SeqLock, _logging.Logger)) or not t.__module__.startswith("flexstack"):
+        return ("skip", t.__name__)
     d = getattr(obj, "__dict__", None)
     if d is None:
-        return ("opaque", type(obj).__name__)
-    return (type(obj).__name__,) + tuple((k, struct(v, now, horizon, _depth + 1)) for k, v in sorted(d.items())
-                                         if k not in _SKIP_NAMES)
+        return ("opaque", t.__name__)
+    return (t.__name__,) + tuple((k, struct(v, now, horizon, _depth + 1)) for k, v in sorted(d.items()))
 
 
 def snapshot(world, shared=()):
